@@ -24,7 +24,13 @@ func main() {
 	cfgJSON := flag.String("cfg", "", "exploration configuration (json)")
 	replay := flag.String("replay", "", "json {scenario, choices} to re-execute")
 	memstore := flag.Int("memstore", 0, "explore this many schedules of racing Store calls on the in-memory metastore (C13)")
+	coldrace := flag.Int("coldrace", 0, "explore this many schedules of cold session factories racing on one real in-memory metastore (C14, C02)")
+	workers := flag.Int("workers", 3, "racing processes for -coldrace")
 	flag.Parse()
+	if *coldrace > 0 {
+		die(concdrv.ColdRace(*workers, *coldrace, 2, *seed, *trace, *out))
+		return
+	}
 	if *memstore > 0 {
 		die(concdrv.MemStoreRace(3, *memstore, 2, *seed, *trace, *out))
 		return
